@@ -233,13 +233,18 @@ def hyp_job(job):
 # ---------------------------------------------------------------------------------------------
 class _Recorder:
     def __init__(self, inner, tcp):
-        self.inner, self.tcp, self.reqs, self.fail_next = inner, tcp, [], 0
+        self.inner, self.tcp, self.reqs, self.fail_next, self.fail_at = inner, tcp, [], 0, None
 
     def respond(self, data):
         self.reqs.append(bytes(data[2:]) if self.tcp else bytes(data))
         if self.fail_next:
             self.fail_next -= 1
             return None
+        if self.fail_at is not None:
+            self.fail_at -= 1
+            if self.fail_at < 0:
+                self.fail_at = None
+                return None
         return self.inner.respond(data)
 
     def __getattr__(self, name):
@@ -252,6 +257,9 @@ def _hist_configs():
         for arm in (10, 18, 19, 24):
             out.append({"family": "ET", "serial": serial, "rated_power": power, "refuse": [], "battery_mode": 1, "tcp": bool(arm & 2), "arm": arm})
     out.append({"family": "ET", "serial": b"9010KETU000W0000", "rated_power": 10000, "refuse": ["eco_v2", "peak_shaving"], "battery_mode": 1, "tcp": False, "arm": 24})
+    out.append({"family": "ET", "serial": b"925KETT000W00001", "rated_power": 25000, "refuse": ["meter_ext2"], "battery_mode": 1, "tcp": True, "arm": 24})
+    out.append({"family": "ET", "serial": b"9010KETU000W0000", "rated_power": 15000, "refuse": ["meter_ext", "battery2"], "battery_mode": 1, "tcp": False, "arm": 18})
+    out.append({"family": "ET", "serial": b"929K9ETT00W00001", "rated_power": 29900, "refuse": ["mppt"], "battery_mode": 0, "tcp": False, "arm": 19})
     for serial in (b"9010KDTU000W0000", b"9010KMSU000W0000"):
         out.append({"family": "DT", "serial": serial, "refuse": [], "tcp": serial[5:7] == b"MS"})
     for serial in (b"95048ESU000W0000", b"95048EMU000W0000", b"95048XYZ000W0000"):
@@ -260,7 +268,7 @@ def _hist_configs():
     return out
 
 
-HISTORIES = ("fresh", "preread", "failed-info-then-preread", "info-twice", "reverse-twice", "runtime-first")
+HISTORIES = ("fresh", "preread", "failed-info-then-preread", "info-twice", "reverse-twice", "runtime-first") + tuple("failed-poll:%d" % k for k in range(7))
 
 
 def _run_history(cfg, hist, salt):
@@ -280,7 +288,7 @@ def _run_history(cfg, hist, salt):
     def call(coro):
         try:
             return ("ok", repr(run_sync(coro)))
-        except (InverterError, ValueError) as ex:
+        except (InverterError, ValueError, NotImplementedError) as ex:   # NotImplementedError: computed kinds, a C16 finding
             return ("exc", type(ex).__name__)
 
     def read_all(ids, store=None):
@@ -306,7 +314,20 @@ def _run_history(cfg, hist, salt):
     if hist == "info-twice":
         read_all(ids_now())
         call(inv.read_device_info())
+    if hist.startswith("failed-poll:"):
+        # one poll in which request k gets no answer (possibly the fallback read after a refused block), then a clean one
+        rec.fail_at = int(hist.split(":")[1])
+        call(inv.read_runtime_data())
+        rec.fail_at = None
+        call(inv.read_runtime_data())
     out = {}
+    runtime = None
+    for _ in range(3):      # the documented double fallback may fail one poll
+        try:
+            runtime = run_sync(inv.read_runtime_data())
+            break
+        except InverterError:
+            pass
     ids = ids_now()
     if hist == "reverse-twice":
         read_all(list(reversed(ids)))
@@ -314,6 +335,7 @@ def _run_history(cfg, hist, salt):
     else:
         read_all(ids, out)
     defs = {("setting", s.id_): s for s in inv.settings()}
+    defs["__runtime__"] = runtime
     return info, out, defs
 
 
@@ -336,13 +358,12 @@ def history_job(job):
         try:
             info0, base, defs = _run_history(cfg, "fresh", i)
         except Exception as ex:
-            acc.fail("C12|history|harness|%s" % type(ex).__name__, repr(ex), {"history": True, "cfg": cfg, "hist": "fresh"})
-            continue
+            raise harness.HarnessError("C12 history baseline failed for %r: %r" % (cfg, ex))
         # absolute: a Modbus setting is fetched by ONE read of exactly its own registers
         if cfg["family"] != "ES":
             for key, (r, reqs) in base.items():
                 s = defs.get(key)
-                if s is None or not reqs:
+                if s is None or not reqs or key == "__runtime__":
                     continue
                 try:
                     op = rw.parse_tcp_request(b"\0\1" + reqs[-1])[1] if cfg.get("tcp") else rw.parse_rtu_request(reqs[-1])
@@ -358,10 +379,19 @@ def history_job(job):
             acc.case()
             acc.nontrivial("history", repr(sorted(cfg.items())), hist)
             try:
-                info, got, _ = _run_history(cfg, hist, i)
+                info, got, gdefs = _run_history(cfg, hist, i)
             except Exception as ex:
                 acc.fail("C12|history|exception|%s" % type(ex).__name__, "%r in history %s" % (ex, hist), case)
                 continue
+            # bulk read: an id reported by both objects has the same value (same registers) - whatever was read or failed before
+            r0, r1 = defs.get("__runtime__"), gdefs.get("__runtime__")
+            if r0 is not None and r1 is not None:
+                bad = [k for k in r0 if k in r1 and not rs.same(r0[k], r1[k]) and repr(r0[k]) != repr(r1[k]) and k != "timestamp"]
+                if bad:
+                    acc.fail("C12|history|runtime-value-differs|%s" % cfg["family"],
+                             "read_runtime_data()['%s'] is %r on a fresh object but %r after history '%s' (same register contents)" % (
+                                 bad[0], r0[bad[0]], r1[bad[0]], hist), case)
+                    continue
             if info != info0 or set(got) != set(base):
                 continue    # the device-info outcome / listed ids differ: not comparable (other properties)
             for key in base:
